@@ -143,7 +143,12 @@ class SyncedDict(SyncedCollection, MutableMapping):
                     else:
                         if new_value == existing:
                             continue
-                        if _sc_resolver.get_type(existing) == "SYNCEDCOLLECTION":
+                        # A value of None must replace the nested collection
+                        # (for _update, None means "leave the data unchanged").
+                        if (
+                            new_value is not None
+                            and _sc_resolver.get_type(existing) == "SYNCEDCOLLECTION"
+                        ):
                             try:
                                 existing._update(new_value)
                                 continue
